@@ -782,10 +782,10 @@ class BasePlaceholderManager(MpfController):
                 else:
                     raise
         if isinstance(node.slice, ast.Slice):
-            lower, lower_subscription = self._eval(node.slice.lower, variables, subscribe)
-            upper, upper_subscription = self._eval(node.slice.upper, variables, subscribe)
-            step, step_subscription = self._eval(node.slice.step, variables, subscribe)
-            return value[lower:upper:step], subscription + lower_subscription + upper_subscription + step_subscription
+            lower, subscription = self._eval_next(node.slice.lower, variables, subscribe, subscription)
+            upper, subscription = self._eval_next(node.slice.upper, variables, subscribe, subscription)
+            step, subscription = self._eval_next(node.slice.step, variables, subscribe, subscription)
+            return value[lower:upper:step], subscription
 
         raise TypeError(type(node.slice))
 
